@@ -158,6 +158,25 @@ def run(ctx, spec):
         lm = {g: f"s{rng.randrange(ns)}" for g in gen.object_labels(no)}
         ctx.count("mon.big_species_trees")
         check_input(ctx, Gn, Sn, lm, [], [])
+    if spec["i"] == 0:
+        # one huge species tree (17 000 leaves, ~34 000 nodes: Euler tour beyond 65 536 entries), genes in species
+        # visited late in depth-first order as well
+        ns = 17000
+        import sys
+
+        sys.setrecursionlimit(20000)
+        Sn = RT.balanced([f"s{i}" for i in range(ns)])
+        no = 12
+        labels = gen.object_labels(no)
+        # half of the genes form a clade that lives entirely in the species visited last (and another one in those visited
+        # first), the rest is spread out
+        late, early = labels[:4], labels[4:7]
+        Gn = [[RT.random_tree_shape(rng, late, kind="rand"), RT.random_tree_shape(rng, early, kind="rand")], RT.random_tree_shape(rng, labels[7:], kind="rand")]
+        lm = {g: f"s{rng.randrange(ns)}" for g in labels}
+        lm.update({g: f"s{ns - 1 - rng.randrange(40)}" for g in late})
+        lm.update({g: f"s{rng.randrange(40)}" for g in early})
+        ctx.count("mon.huge_species_tree")
+        check_input(ctx, Gn, Sn, lm, [], [])
     for _ in range(spec["nrand"]):
         Gn, Sn, lm = gen.random_input(rng, 10, 8, min_obj=5, min_sp=3)
         check_input(ctx, Gn, Sn, lm, rng.sample(PAIRS, 4), rng.sample(PAIRS, 2))
